@@ -1,7 +1,8 @@
 (* C28 — Framework-generated redirects never point to another site. *)
 From Coq Require Import List NArith Bool.
 Import ListNotations.
-From TV Require Import Lib.Obs C28.Model C28.Proofs C28.Run.
+From TV Require Import Lib.Obs C28.Model C28.Proofs C28.Proofs2 C28.Proofs3 C28.Run.
+Local Open Scope N_scope.
 
 (* For every method, query and origin-form request path (starting with "/"), a redirect
    produced by @removeslash / @addslash / the static directory redirect has a
@@ -31,42 +32,132 @@ Proof.
 Qed.
 Print Assumptions C28_never_protocol_relative.
 
+(* End to end — request-line and Host validation, partition at "?", method dispatch, decorator /
+   static handler, RequestHandler.redirect — for every method, request target and Host:
+   a path-derived redirect has status 301; its Location is never protocol-relative; it carries a
+   scheme exactly when the request target itself starts with "scheme:"; for an origin-form target
+   it starts with exactly one "/"; and unless the target's second character is a raw backslash it
+   is a same-host path even for a client that reads "\" as "/". *)
+Theorem C28_request_path_redirect : forall k m t h st loc,
+  path_kind k = true -> handle (k, m, t, h) = Redirect st loc ->
+  st = 301
+  /\ starts_with_2slash loc = false
+  /\ has_scheme loc = has_scheme t
+  /\ (starts_with_slash t = true -> same_host_path loc = true)
+  /\ (starts_with_slash t = true -> second_is_backslash t = false -> browser_same_host loc = true).
+Proof. exact handle_path_redirect. Qed.
+Print Assumptions C28_request_path_redirect.
+
+(* the property's classifier fails exactly on absolute-form request targets *)
+Theorem C28_location_unsafe_iff_absolute_form_target : forall k m t h st loc,
+  path_kind k = true -> handle (k, m, t, h) = Redirect st loc ->
+  safe_location loc = negb (has_scheme t).
+Proof. exact handle_safe_iff. Qed.
+Print Assumptions C28_location_unsafe_iff_absolute_form_target.
+
 (* FULL statement (false of the faithful model, see the refutation below):
      forall m p q st loc, removeslash m p q = Redirect st loc -> safe_location loc = true.
-   It holds for origin-form targets (theorems above); for an absolute-form request target
-   "GET http://e.c/a/" the Location is the scheme-qualified "http://e.c/a". *)
+   It holds for every target that does not start with "scheme:" (theorems above); for an absolute-form
+   request target "GET http://e.c/a/" the Location is the scheme-qualified "http://e.c/a". *)
 Theorem C28_scheme_qualified_refuted :
   exists m p q st loc, removeslash m p q = Redirect st loc /\ safe_location loc = false.
 Proof. exact removeslash_absolute_form_refuted. Qed.
 Print Assumptions C28_scheme_qualified_refuted.
 
-(* @authenticated redirects only to the configured login URL, optionally followed by
-   "?next=" and a percent-encoded value that contains no URL delimiter. *)
-Theorem C28_authenticated_only_login_url : forall m login absl full uri st loc,
-  authenticated m login absl full uri = Redirect st loc ->
-  loc = login \/
-  exists nxt, (nxt = full \/ nxt = uri) /\ loc = login ++ QMARK :: NEXT_EQ ++ quote_plus nxt.
-Proof. exact authenticated_only_login_url. Qed.
+(* Under the stricter reading that counts "\" as "/" (browser URL parsing) the statement is false for an
+   origin-form path whose second character is a raw backslash: "GET /\e.c/" -> "Location: /\e.c".
+   C28_request_path_redirect shows this is the only such case. *)
+Theorem C28_backslash_form_refuted :
+  exists m p q st loc, starts_with_slash p = true /\ removeslash m p q = Redirect st loc /\ browser_same_host loc = false.
+Proof. exact removeslash_backslash_refuted. Qed.
+Print Assumptions C28_backslash_form_refuted.
+
+(* RequestHandler.redirect: the Location is the UTF-8 of the URL it was given, free of control bytes
+   (no header injection); the status is 3xx — 301/302 from `permanent`, or the explicit one. *)
+Theorem C28_redirect_status_and_location : forall hw url perm status st loc,
+  redirect hw url perm status = Redirect st loc ->
+  hw = false /\ loc = wire url /\ 300 <= st <= 399
+  /\ match status with None => st = (if perm then 301 else 302) | Some s => st = s end
+  /\ forallb valid_cp url = true /\ forallb valid_header_byte loc = true.
+Proof. exact redirect_inv. Qed.
+Print Assumptions C28_redirect_status_and_location.
+
+(* every Location the modelled request path can emit, for every handler kind and input *)
+Theorem C28_location_never_has_control_bytes : forall i st loc,
+  handle i = Redirect st loc -> forallb valid_header_byte loc = true /\ 300 <= st <= 399.
+Proof. exact handle_location_no_control. Qed.
+Print Assumptions C28_location_never_has_control_bytes.
+
+(* redirects derived from the request (decorators, static handler, @authenticated) answer GET and HEAD only *)
+Theorem C28_redirect_only_for_get_head : forall k m t h st loc,
+  match k with KRedirect _ _ _ _ => False | _ => True end ->
+  handle (k, m, t, h) = Redirect st loc -> m = GET \/ m = HEAD.
+Proof. exact handle_redirect_get_head. Qed.
+Print Assumptions C28_redirect_only_for_get_head.
+
+Theorem C28_undefined_method_405 : forall k m t h,
+  valid_method m = true -> valid_target t = true -> valid_host h = true ->
+  mem_texts m (defined_methods k) = false -> handle (k, m, t, h) = Status 405.
+Proof. exact handle_method_405. Qed.
+Print Assumptions C28_undefined_method_405.
+
+Theorem C28_invalid_request_400 : forall k m t h,
+  valid_method m && valid_target t && valid_host h = false -> handle (k, m, t, h) = Status 400.
+Proof. exact handle_invalid_400. Qed.
+Print Assumptions C28_invalid_request_400.
+
+Theorem C28_static_redirect_needs_default_dir : forall d fs ix m t h st loc,
+  handle (KStatic d fs ix, m, t, h) = Redirect st loc -> d = true /\ fs = FsDir.
+Proof. exact static_redirect_needs_default_dir. Qed.
+Print Assumptions C28_static_redirect_needs_default_dir.
+
+(* @authenticated (through the whole request path) redirects with 302 only to the configured login URL:
+   either exactly its UTF-8 (login URL with a query), or that followed by "?next=" and a percent-encoded
+   value of inert characters; the Location splits at its first "?" into exactly (login URL, "next=" value),
+   and the value decodes (unquote_plus) to the UTF-8 of the request URI — of the full URL
+   "http://" ++ Host ++ URI when urlsplit finds a scheme in the login URL. *)
+Theorem C28_authenticated_only_login_url : forall login user m t h st loc,
+  handle (KAuth login user, m, t, h) = Redirect st loc ->
+  st = 302 /\ user = false /\ valid_host h = true /\
+  exists url, login = Some url /\
+    ((mem_text QMARK url = true /\ loc = wire url) \/
+     (mem_text QMARK url = false /\
+      partition_q loc = (wire url, NEXT_EQ ++ quote_plus (next_of url h t)) /\
+      unquote_plus (quote_plus (next_of url h t)) = wire (next_of url h t) /\
+      forallb url_safe (quote_plus (next_of url h t)) = true /\
+      loc = wire url ++ QNEXT ++ quote_plus (next_of url h t))).
+Proof. exact handle_auth_redirect. Qed.
 Print Assumptions C28_authenticated_only_login_url.
 
+(* the site the login redirect points to (everything before "?") is the same for all requests *)
+Theorem C28_authenticated_site_independent_of_request : forall url m1 u1 h1 r1 st1 loc1 m2 u2 h2 r2 st2 loc2,
+  authenticated m1 (Some url) u1 h1 r1 = Redirect st1 loc1 ->
+  authenticated m2 (Some url) u2 h2 r2 = Redirect st2 loc2 ->
+  before_qmark loc1 = before_qmark loc2 /\ before_qmark loc1 = before_qmark (wire url).
+Proof. exact authenticated_site_independent. Qed.
+Print Assumptions C28_authenticated_site_independent_of_request.
+
 Theorem C28_next_value_is_inert : forall s,
-  Forall (fun c => (c < 2048)%N) s -> forallb url_safe (quote_plus s) = true.
+  Forall (fun c => c < 1114112) s -> forallb url_safe (quote_plus s) = true.
 Proof. exact quote_plus_safe. Qed.
 Print Assumptions C28_next_value_is_inert.
 
-(* the model satisfies the checker that is applied to the implementation (origin-form paths) *)
-Theorem C28_model_satisfies_checker_partial : forall k m p q login absl full uri,
-  (k = KAuth \/ starts_with_slash p = true) ->
-  check_case (k, m, p, q, login, absl, full, uri) (run_case (k, m, p, q, login, absl, full, uri)) = true.
-Proof.
-  intros k m p q login absl full uri H. unfold run_case, decide, check_case.
-  destruct k.
-  - destruct H as [H|H]; [discriminate|].
-    destruct (removeslash m p q) eqn:E; cbn; auto. apply same_host_path_safe. eapply removeslash_safe; eauto.
-  - destruct H as [H|H]; [discriminate|].
-    destruct (addslash m p q) eqn:E; cbn; auto. apply same_host_path_safe. eapply addslash_safe; eauto.
-  - destruct H as [H|H]; [discriminate|].
-    destruct (static_dir p) eqn:E; cbn; auto. apply same_host_path_safe. eapply static_dir_safe; eauto.
-  - destruct (authenticated m login absl full uri) eqn:E; cbn; auto. eapply authenticated_prefix; eauto.
-Qed.
+Theorem C28_next_value_round_trip : forall s,
+  Forall (fun c => c < 1114112) s -> unquote_plus (quote_plus s) = wire s.
+Proof. exact unquote_quote_plus. Qed.
+Print Assumptions C28_next_value_round_trip.
+
+Theorem C28_relative_login_next_is_uri : forall url host uri,
+  starts_with_slash url = true -> next_of url host uri = uri.
+Proof. exact relative_login_next_is_uri. Qed.
+Print Assumptions C28_relative_login_next_is_uri.
+
+(* The model satisfies the checker that is applied to the implementation, for every handler kind, method,
+   Host and every request target that does not start with "scheme:".
+   FULL statement (no hypothesis) is false because of the open known finding 'absolute-form-target'
+   (C28_scheme_qualified_refuted / C28_location_unsafe_iff_absolute_form_target). *)
+Theorem C28_model_satisfies_checker_partial : forall k m t h,
+  (path_kind k = true -> has_scheme t = false) ->
+  check_case (k, m, t, h) (run_case (k, m, t, h)) = true.
+Proof. exact model_satisfies_checker. Qed.
 Print Assumptions C28_model_satisfies_checker_partial.
